@@ -8,6 +8,8 @@ from .prelude import seq_ops
 from .spec import FnContract, parse_expr
 
 MAX_INLINE_DEPTH = 6
+import itertools as _it
+_tmp_counter = _it.count()
 
 
 def eval_call(E, node: ast.Call, st, fr):
@@ -95,6 +97,10 @@ def spec_call(E, name, node, st, fr):
     if name == "keys":
         v = E.ev(A[0], st, fr)
         return V(ty.SeqV(v.t.args[0]), E.dict_keys(st, v))
+    if name == "vals_seq":
+        # the values of a dict as a sequence (insertion order)
+        d = E.ev(A[0], st, fr)
+        return method_call(E, d, "values", [], {}, st, fr, node)
     if name == "vals_set":
         v = E.ev(A[0], st, fr)
         return V(T("arr", (v.t.args[0], BOOL)), E.set_arr(st, v))
@@ -148,7 +154,7 @@ def spec_call(E, name, node, st, fr):
     if name == "Cnt":
         d = E.ev(A[0], st, fr)
         v = E.ev(A[1], st, fr)
-        kt, vt = d.t.args
+        kt, vt = d.t.args[:2]
         Cnt, _w = seq_ops(kt).Cnt(ty.zsort(vt))
         return V(INT, Cnt(E.dict_keys(st, d), E.dict_vals(st, d), E.coerce(v, vt).z))
     if name == "fresh":
@@ -685,6 +691,8 @@ def apply_contract(E, c: FnContract, q, argmap, st, fr, node):
     if fr.spec and (c.modifies or c.raises):
         raise CheckerError(f"specification calls impure function {q}")
     # ---- havoc -----------------------------------------------------------------------------
+    if c.allocates and not fr.spec:
+        E.assume_imm_wf(st)   # what allocated objects reference is allocated (so results fresh w.r.t. this point differ from it)
     cfr.old = pre
     ms = E.modset(c, view(pre, dict(argmap)), cfr)
     E.havoc_modset(st, ms, pre, allocates=c.allocates)
@@ -709,6 +717,18 @@ def apply_contract(E, c: FnContract, q, argmap, st, fr, node):
             pass
     for e in c.ensures:
         st.assume(E.sev_bool(e, view(st, dict(argmap)), cfr, binds))
+    if res is not None and not fr.spec:
+        # keep the temporary reachable: facts about an intermediate result (p.runtime_status().get_ops(...)) must
+        # survive path-condition pruning at the next loop head
+        st.locals["$tmp%d" % next(_tmp_counter)] = res
+    if res is not None and any("fresh(result)" in e for e in c.ensures):
+        # prune-surviving consequences of freshness: not in the initial heap, and a birth stamp of this call site
+        if ("alloc",) not in E.heap0:
+            E.heap0[("alloc",)] = z3.Const("H0_alloc", E.key_sort(("alloc",)))
+        st.assume(z3.Not(z3.Select(E.heap0[("alloc",)], res.z)))
+        birth = E.ufn("birth", ty.RefSort, z3.IntSort())
+        E._births = getattr(E, "_births", 0) + 1
+        st.assume(birth(res.z) == E._births)
     E.wf_after_havoc(st, ms)
     return res if res is not None else V(NONE, ty.null)
 
@@ -781,7 +801,7 @@ def method_call(E, recv, meth, args, kwargs, st, fr, node):
             E.set_list_seq(st, recv, so.Empty)
             return V(NONE, ty.null)
     if k == "dict":
-        kt, vt = recv.t.args
+        kt, vt = recv.t.args[:2]
         so = seq_ops(kt)
         keys, vals = E.dict_keys(st, recv), E.dict_vals(st, recv)
         if meth == "get":
